@@ -513,7 +513,7 @@ func run(c *fw.Ctx) error {
 	c.Extra["bisection_runs"] = r.bisects
 	c.Extra["pinned_cases_of_excluded_constructs"] = len(pinned)
 	c.Extra["cases_of_excluded_constructs_by_finding"] = exclCount
-	c.Extra["exhaustive_except"] = "constructs of findings F-C02-1, F-C02-2 (kind int only), F-C02-3 are kept out of the bulk programs (Excluded_F_C02_*); a pinned sample of them runs alone; 'drop' = untyped-constant shift operand with a negative count (two findings at once), not run"
+	c.Extra["exhaustive_except"] = "nothing: the constructs of the repaired findings F-C02-1, -2, -3, -4, -7 are back in the bulk programs (excluded() returns no exclusion; the counters above stay empty)"
 	c.Exhaustive = !c.Quick()
 	if c.Quick() {
 		c.Extra["exhaustive_parts"] = "reduced boundary set {min,max,-1,0,1,2^(w/2)} x all kinds x all operators x all forms x all contexts; string/bool/complex complete"
